@@ -507,6 +507,80 @@ theorem parse_cov_sorted {s : Bytes} {len : Int} (hn : (splitOn 44 s).length ≤
   exact (parseLoop_cov_sorted (len := len) (splitOn 44 s) { rs := [], lim := RMAX } rfl
     (by simp only [List.length_nil, rmax_eq]; omega) hasc (by intro prev h; simp at h)).2.2 rg hrg
 
+/-! ### an ascending prefix of a longer list -/
+
+theorem parseStep_break {st : PSt} {rg : Rng} (hb : (parseStep st rg).2 = true) :
+    (parseStep st rg).1 = st := by
+  cases hrs : st.rs with
+  | nil => simp [parseStep, hrs] at hb
+  | cons prev more =>
+    simp only [parseStep, hrs] at hb ⊢
+    by_cases h1 : prev.1 ≤ rg.1
+    · simp only [h1, if_true] at hb
+      by_cases h2 : prev.2 < rg.1 - 80 <;> simp [h2] at hb
+    · simp only [h1, if_false] at hb ⊢
+      by_cases h2 : more.length + 2 > RMAX_UNSORTED
+      · simp only [h2, if_true]
+      · simp [h2] at hb
+
+theorem parseLoop_cons {len : Int} (p : Bytes) (ps : List Bytes) (st : PSt) :
+    parseLoop len st (p :: ps) =
+      match parseSpec p len with
+      | none => parseLoop len st ps
+      | some rg =>
+        if (parseStep st rg).2 = true ∨ (parseStep st rg).1.rs.length ≥ (parseStep st rg).1.lim
+        then (parseStep st rg).1 else parseLoop len (parseStep st rg).1 ps := by
+  conv => lhs; unfold parseLoop
+  cases parseSpec p len <;> rfl
+
+/-- ranges already accepted are never lost by whatever follows (any pieces, any order) -/
+theorem parseLoop_cov_prev {len : Int} (ps : List Bytes) (st : PSt) :
+    ∀ o ∈ st.rs, Cov (parseLoop len st ps).rs o := by
+  induction ps generalizing st with
+  | nil => exact fun o ho => Cov.self ho
+  | cons p ps ih =>
+    rw [parseLoop_cons]
+    cases hp : parseSpec p len with
+    | none => exact ih st
+    | some rg =>
+      have hstep : ∀ o ∈ st.rs, Cov (parseStep st rg).1.rs o := by
+        cases hb : (parseStep st rg).2 with
+        | false => exact (parseStep_cov hb).1
+        | true => rw [parseStep_break hb]; exact fun o ho => Cov.self ho
+      simp only
+      split
+      · exact hstep
+      · exact fun o ho => Cov.mono (ih _) (hstep o ho)
+
+theorem parseLoop_append {len : Int} (pre post : List Bytes) (st : PSt) :
+    parseLoop len st (pre ++ post) = parseLoop len st pre ∨
+    parseLoop len st (pre ++ post) = parseLoop len (parseLoop len st pre) post := by
+  induction pre generalizing st with
+  | nil => right; rfl
+  | cons p pre ih =>
+    simp only [List.cons_append]
+    rw [parseLoop_cons p (pre ++ post), parseLoop_cons p pre]
+    cases hp : parseSpec p len with
+    | none => exact ih st
+    | some rg =>
+      simp only
+      split
+      · left; rfl
+      · exact ih _
+
+theorem parse_cov_prefix {s : Bytes} {len : Int} (pre post : List Bytes)
+    (hs : splitOn 44 s = pre ++ post) (hn : pre.length ≤ 128)
+    (hasc : (validRanges len pre).Pairwise (fun a b => a.1 ≤ b.1)) :
+    ∀ rg ∈ validRanges len pre, Cov (parse s len) rg := by
+  intro rg hrg
+  apply parse_cov_of_loop
+  rw [hs]
+  have hpre := (parseLoop_cov_sorted (len := len) pre { rs := [], lim := RMAX } rfl
+    (by simp only [List.length_nil, rmax_eq]; omega) hasc (by intro prev h; simp at h)).2.2 rg hrg
+  rcases parseLoop_append (len := len) pre post { rs := [], lim := RMAX } with h | h
+  · rw [h]; exact hpre
+  · rw [h]; exact Cov.mono (parseLoop_cov_prev post _) hpre
+
 /-! ### emptiness: 416 exactly when no piece is acceptable -/
 
 theorem parseLoop_ne_nil {len : Int} (ps : List Bytes) (st : PSt) (h : st.rs ≠ []) :
